@@ -17,7 +17,7 @@ LEVEL_RULE = (
 )
 EXHAUSTIVE_SUBDOMAINS = ["DF 0..31 x {56,112} bits x {upper,lower,mixed} for structured addresses (single-bit, all-ones, zero)"]
 ASSUMPTIONS = ["canonical form = the string icao() returns for an upper-case DF20 frame of the same address (%06X)"]
-REQUIRED = ["df%d" % d for d in range(32)] + ["distinct_messages_pushed_through_by_4_threads", "ap_text_echoed_in_payload", "ap_field_boundary_value", "literal_structured_strings", "table_replies_of_strangers", "table_first_heard_by_tc0", "table_identical_repeats_for_minutes", "table_through_the_live_loop", "table_one_alive_through_replies_one_silent", "table_two_trackers_alive", "table_after_thousands_of_evictions", "table_identical_replies_two_aircraft", "case_upper", "case_lower", "case_mixed", "len56", "len112", "table_one_key",
+REQUIRED = ["df%d" % d for d in range(32)] + ["distinct_messages_pushed_through_by_4_threads", "ap_text_echoed_in_payload", "ap_field_boundary_value", "literal_structured_strings", "table_replies_of_strangers", "table_first_heard_by_tc0", "table_identical_repeats_for_minutes", "table_two_aircraft_position_frames_kept_apart", "table_through_the_live_loop", "table_one_alive_through_replies_one_silent", "table_two_trackers_alive", "table_after_thousands_of_evictions", "table_identical_replies_two_aircraft", "case_upper", "case_lower", "case_mixed", "len56", "len112", "table_one_key",
                                               "allcall_rejects", "df_none"]
 
 AP = (0, 4, 5, 16, 20, 21)
@@ -189,6 +189,42 @@ def m_table(ctx, case):
             ctx.violation("live-loop-does-not-merge-reply-under-its-address", chunk=chunk, keys=sorted(d.acs), t=d.acs.get(kx, {}).get("t"),
                           expected_t=now - 1.0, exceptions=repr(q_.items)[:200])
         ctx.hit("table_through_the_live_loop")
+    if case.get("twin"):
+        # two aircraft a few miles apart both send position squitters (A an even frame, B an odd one a second later): whatever a
+        # record keeps - frames, pairs, a position - comes from frames that carry ITS address; B has no fix from one frame
+        from ..ref import cpr as _cpr
+        addr_b = addr ^ (1 << rng.randrange(24))
+        la, lo = rng.uniform(-60, 60), rng.uniform(-170, 170)
+        fr_ = []
+        for i_, (ad_, dl) in enumerate(((addr, 0.0), (addr_b, 0.05))):
+            yz, xz = _cpr.encode(la + dl, lo + dl, i_, False)[:2]
+            fr_.append("%028X" % bits.es_frame(17, 5, ad_, _cpr.me_airborne(11, 0, 0, 0x5A5, 0, i_, yz, xz)))
+        d = Decode()
+        r = call(d.process_raw, [100.0, 101.0], fr_, [], [], 101.5)
+        ctx.ev()
+        ka, kb = "%06X" % addr, "%06X" % addr_b
+        bad_ = None
+        if r[0] != "ok" or set(d.acs) != {ka, kb}:
+            bad_ = "keys"
+        else:
+            for key_, rec_ in d.acs.items():
+                def _strs(v_):
+                    if isinstance(v_, str):
+                        yield v_
+                    elif isinstance(v_, (list, tuple)):
+                        for w_ in v_:
+                            yield from _strs(w_)
+                    elif isinstance(v_, dict):
+                        for w_ in v_.values():
+                            yield from _strs(w_)
+                for v_ in _strs(rec_):
+                    if len(v_) == 28 and v_.upper() in (fr_[0], fr_[1]) and v_.upper()[2:8] != key_:
+                        bad_ = "record %s keeps a frame of %s" % (key_, v_.upper()[2:8])
+                if rec_.get("lat") is not None:
+                    bad_ = bad_ or "record %s has a position from one frame of its own" % key_
+        if bad_:
+            ctx.violation("record-built-from-another-aircrafts-frames", frames=fr_, what=bad_, keys=sorted(d.acs))
+        ctx.hit("table_two_aircraft_position_frames_kept_apart")
     if case.get("twin"):
         # X is heard first, then Y; from then on only X's Comm-B replies arrive (every 20 s for two minutes): Y times out on its
         # own clock - X, still alive at the head of the table, must not shield it - and a late reply of Y finds no key
